@@ -419,6 +419,9 @@ def _len(m, st, callee, args, t):
 
 @model("core::str::<impl str>::is_empty", "alloc::string::String::is_empty")
 def _is_empty(m, st, callee, args, t):
+    v0 = deref_all(m, st, args[0])
+    if isinstance(v0, Opq) and v0.kind == "lazy-run" and hasattr(m.world, "run_is_empty"):
+        return m.world.run_is_empty(m, st, v0)
     v = deref_all(m, st, args[0])
     if isinstance(v, Opq) and v.kind == "buf" and hasattr(m.world, "buf_is_empty"):
         return m.world.buf_is_empty(m, st, v)
@@ -702,6 +705,10 @@ def _next_generic(m, st, callee, args, t):
             return h(m, st, ref)
     if isinstance(it, Opq) and it.kind == "slice-iter":
         return _slice_iter_next(m, st, callee, args, t)
+    if isinstance(it, Opq) and it.kind == "fsplit":
+        return _split_next(m, st, callee, args, t)
+    if isinstance(it, Opq) and it.kind == "filter":
+        return _filter_next(m, st, callee, args, t)
     if isinstance(it, Opq) and it.kind == "map":
         inner, f = it.data
         # the inner iterator lives inside the adaptor value: step it through a reference to that field
@@ -804,6 +811,10 @@ def _push_str(m, st, callee, args, t):
     h = getattr(m.world, "buf_push_str", None)
     if h is None:
         return None
+    v = deref_all(m, st, args[1])
+    if isinstance(v, Opq) and v.kind == "lazy-run":
+        # a run of a split that has not been read yet: it is read, and pushed, character by character now
+        return (INLINE, m.prog.bodies["pv::synth::push_run"], [args[0], v], None)
     return h(m, st, args[0], _content(m, st, args[1]))
 
 
@@ -1003,6 +1014,37 @@ def _chars_next_back(m, st, callee, args, t):
     return h(m, st, ref, it)
 
 
+@model("core::str::<impl str>::split", "core::str::<impl str>::split_terminator")
+def _str_split(m, st, callee, args, t):
+    h = getattr(m.world, "str_split", None)
+    if h is None:
+        return None
+    return h(m, st, _content(m, st, args[0]), args[1], callee["name"])
+
+
+@model("<core::str::iter::Split<'a, P> as core::iter::traits::iterator::Iterator>::next", "<core::str::iter::SplitTerminator<'a, P> as core::iter::traits::iterator::Iterator>::next")
+def _split_next(m, st, callee, args, t):
+    ref, it = _innermost_ref(m, st, args[0])
+    if isinstance(it, Opq) and it.kind == "fsplit" and isinstance(ref, Ref):
+        return m.world.split_next(m, st, ref, it)
+    return None
+
+
+@model("core::iter::traits::iterator::Iterator::filter")
+def _filter(m, st, callee, args, t):
+    if not _known_iter(m, st, args[0]):
+        return None
+    return Opq("filter", (args[0], args[1]))
+
+
+@model("<core::iter::adapters::filter::Filter<I, P> as core::iter::traits::iterator::Iterator>::next")
+def _filter_next(m, st, callee, args, t):
+    ref, it = _innermost_ref(m, st, args[0])
+    if isinstance(it, Opq) and it.kind == "filter" and isinstance(ref, Ref):
+        return (INLINE, m.prog.bodies["pv::synth::filter_next"], [Ref(m._sub(ref.loc, ("opq", 0))), Ref(m._sub(ref.loc, ("opq", 1)))], None)
+    return None
+
+
 @model("core::str::<impl str>::split_once", "core::str::<impl str>::rsplit_once")
 def _split_once(m, st, callee, args, t):
     h = getattr(m.world, "str_split_once", None)
@@ -1037,7 +1079,7 @@ def _slice_concat(m, st, callee, args, t):
 
 
 # ---- internal iteration: interpreted as the loop around next() it stands for (pv/synth.py)
-ITER_KINDS = ("chars", "char_indices", "enumerate", "skip", "rev", "map", "lcur", "slice-iter")
+ITER_KINDS = ("chars", "char_indices", "enumerate", "skip", "rev", "map", "lcur", "slice-iter", "fsplit", "filter")
 
 
 def _known_iter(m, st, v):
